@@ -1144,7 +1144,9 @@ class FortranFile:
                         pre_lines.append("")
                         line_ind -= 1
                         tmp_line = self.get_line(line_ind, pp_content)
-                    pre_lines.append(tmp_line)
+                    # The trailing comment of a continued line is not part of
+                    # the statement
+                    pre_lines.append(self._cut_fixed_comment(tmp_line))
                     tmp_ind = len(pre_lines) - 1
                     line_ind -= 1
             else:  # Free format file
@@ -1186,10 +1188,20 @@ class FortranFile:
         post_lines = []
         if forward:
             if self.fixed:
+                prev_ind = None  # index in post_lines of the last code line
                 while line_ind < self.nLines:
                     next_line = self.get_line(line_ind, pp_content)
                     if FRegex.FIXED_CONT.match(next_line):
+                        # The trailing comment of a continued line is not part
+                        # of the statement
+                        if prev_ind is None:
+                            curr_line = self._cut_fixed_comment(curr_line)
+                        else:
+                            post_lines[prev_ind] = self._cut_fixed_comment(
+                                post_lines[prev_ind]
+                            )
                         post_lines.append(" " * 6 + next_line[6:])
+                        prev_ind = len(post_lines) - 1
                     elif (
                         FRegex.FIXED_COMMENT.match(next_line)
                         or next_line.strip() == ""
@@ -1246,6 +1258,14 @@ class FortranFile:
             curr_line = self.strip_comment(curr_line)
         pre_lines.reverse()
         return pre_lines, curr_line, post_lines
+
+    @staticmethod
+    def _cut_fixed_comment(line: str) -> str:
+        """Cut the trailing comment of a fixed form code line"""
+        # Column 6 holds the continuation mark: a "!" there starts no comment,
+        # nor does a "!" inside a character literal
+        comm_ind = strip_strings(" " * 6 + line[6:], maintain_len=True).find("!")
+        return line if comm_ind < 0 else line[:comm_ind]
 
     def strip_comment(self, line: str) -> str:
         """Strip comment from line"""
